@@ -7,7 +7,7 @@ export GOFLAGS=-mod=mod GOPROXY=off GOSUMDB=off
 src=$1; name=$2; pkg=$3; shift 3; props="$@"
 dst=/verif/seeded/$name; mkdir -p $dst
 cp $src/patch.diff $dst/patch.diff; cp $src/notes.md $dst/notes.md 2>/dev/null
-for f in $src/*_test.go $src/*.go; do [ -f "$f" ] && cp $f $dst/; done
+for f in $src/*_test.go $src/*.go $src/patch.orig.diff.txt; do [ -f "$f" ] && cp $f $dst/; done
 wt=/root/.cache/verif-scratch/wt-$name; rm -rf $wt; mkdir -p /root/.cache/verif-scratch
 git -C /repo worktree add -q --detach $wt HEAD || exit 2
 res=$dst/result.txt; : > $res
